@@ -116,6 +116,13 @@ Proof.
   split; [eapply nth_error_lt; eauto | auto].
 Qed.
 
+Lemma free_fbase : forall l st st', free l st = Ok st' -> fbase st' = fbase st.
+Proof.
+  unfold free. intros l st st' H. destruct (nth_error (heap st) l) as [[c|t|]|]; try discriminate H.
+  - inv H. reflexivity.
+  - destruct (nth_error (heap st) t) as [[c|?|]|]; try discriminate H. inv H. reflexivity.
+Qed.
+
 Lemma release_live : forall l st, live st l -> release l st = free l st.
 Proof. unfold release, live. intros l st [c H]. rewrite H. auto. Qed.
 
